@@ -5,6 +5,7 @@
 package yyflow
 
 import (
+	"golang.org/x/tools/go/types/typeutil"
 	"fmt"
 	"go/ast"
 	"go/token"
@@ -133,6 +134,7 @@ type Event struct {
 	// assert: what the path knew about the asserted value when the assertion ran
 	NonNil bool
 	TypeIs string
+	LenPos bool // index: the path knew the list to be non-empty
 }
 
 // Fact: what a path assumes about a value.
@@ -241,7 +243,7 @@ func (s *State) clone() *State {
 		n.Updates = append(n.Updates, Update{cv(u.Base), u.T, u.F, cv(u.Val), u.Append, u.At})
 	}
 	for _, e := range s.Events {
-		ne := Event{Kind: e.Kind, At: e.At, NonNil: e.NonNil, TypeIs: e.TypeIs}
+		ne := Event{Kind: e.Kind, At: e.At, NonNil: e.NonNil, TypeIs: e.TypeIs, LenPos: e.LenPos}
 		for _, a := range e.Args {
 			ne.Args = append(ne.Args, cv(a))
 		}
@@ -282,6 +284,8 @@ type Lang struct {
 	Actions []*Action // index = production number (0 unused)
 	Problems []string
 	Inlined map[string]int // helper → number of call sites inlined into actions
+	Called   map[string]int // function of the package → calls of it written in the actions
+	Residual map[string]int // function of the package → calls of it left in the normalised actions (not inlined)
 	ntNonEmpty map[string]map[string]bool // nonterminal → "T.F" → list certainly non-empty (set by TreePresence)
 }
 
@@ -325,6 +329,7 @@ func Extract(p *load.Program, yl *yacc.Lang) (*Lang, error) {
 	prims := map[string]bool{"lastNode": true, "firstNode": true, "isDollar": true, "report": true, "Error": true}
 	nz := norm.New(pk, norm.Options{NoCopyProp: true, NoLoops: true, Keep: func(fn *types.Func) bool { return prims[fn.Name()] }})
 	l.Inlined = nz.Inlined
+	l.Called, l.Residual = map[string]int{}, map[string]int{}
 	for _, c := range sw.Body.List {
 		cc := c.(*ast.CaseClause)
 		if len(cc.List) != 1 {
@@ -365,6 +370,21 @@ func Extract(p *load.Program, yl *yacc.Lang) (*Lang, error) {
 		}
 		a.Body = nz.Block(&ast.BlockStmt{Lbrace: cc.Colon, List: body}, nil).List
 		l.Actions[n] = a
+		// calls of functions of the package: in the action as written, and left in the normalised body
+		count := func(stmts []ast.Stmt, into map[string]int) {
+			for _, st := range stmts {
+				ast.Inspect(st, func(nd ast.Node) bool {
+					if call, ok := nd.(*ast.CallExpr); ok {
+						if fn, ok := typeutil.Callee(pk.TypesInfo, call).(*types.Func); ok && fn.Pkg() == pk.Types {
+							into[fn.Name()]++
+						}
+					}
+					return true
+				})
+			}
+		}
+		count(cc.Body, l.Called)
+		count(a.Body, l.Residual)
 	}
 	return l, nil
 }
@@ -938,6 +958,9 @@ func (in *interp) eval(e ast.Expr, s *State) Val {
 		} else if isLenMinus1(x.Index, x.X) {
 			which = "last"
 		}
+		if which != "i" {
+			in.indexEvent(s, base, which, x)
+		}
 		if lv, ok := base.(ListV); ok && len(lv.Segs) > 0 {
 			// element of a list built here
 			if which == "0" {
@@ -961,8 +984,10 @@ func (in *interp) eval(e ast.Expr, s *State) Val {
 		base := in.eval(x.X, s)
 		switch {
 		case x.Low != nil && isConst(info, x.Low, "1") && (x.High == nil || isLen(x.High, x.X)):
+			in.indexEvent(s, base, "1:", x)
 			return Slc{base, "1:"}
 		case x.Low == nil && x.High != nil && isLenMinus1(x.High, x.X):
+			in.indexEvent(s, base, ":last", x)
 			return Slc{base, ":last"}
 		case x.Low == nil && x.High == nil:
 			return base
@@ -1601,4 +1626,26 @@ func (in *interp) mayBeNilKey(key string) bool {
 		return in.mayBeNil(Sym{I: i})
 	}
 	return true
+}
+
+
+// indexEvent records that the element `which` ("0", "last") or the reslice ("1:", ":last") of a list is
+// taken: all four need a non-empty list. What the path knows about the list at this point goes with it.
+func (in *interp) indexEvent(s *State, base Val, which string, at ast.Expr) {
+	ev := Event{Kind: "index", Args: []Val{base, Opq{which}, Opq{types.ExprString(at)}}, At: at.Pos()}
+	if isNil, known := s.KnownNil(base); known && !isNil {
+		ev.NonNil = true
+	}
+	if f := s.Facts[base.String()]; f != nil && f.LenGt0 != nil && *f.LenGt0 {
+		ev.LenPos = true
+	}
+	s.Events = append(s.Events, ev)
+}
+
+
+// InlinedIntoActions: the function is called from grammar actions and every such call was inlined into the
+// action's body before interpretation, so what the function does to its arguments is judged, call site by
+// call site, by the rules over the actions.
+func (l *Lang) InlinedIntoActions(name string) bool {
+	return l.Called[name] > 0 && l.Residual[name] == 0 && l.Inlined[name] >= l.Called[name]
 }
